@@ -439,7 +439,7 @@ func (p *Program) instrMods(ms *modSet, fn *ssa.Function, ins ssa.Instruction, d
 				mm(p, ms, c)
 				return
 			}
-			if p.isModuleType(c.Value.Type()) && p.Specs.Contracts[key] == nil {
+			if ct := p.Specs.Contracts[key]; p.isModuleType(c.Value.Type()) && (ct == nil || ct.Dispatch) {
 				ms.all = true
 				return
 			}
@@ -524,4 +524,50 @@ func (p *Program) findFunc(key string) *ssa.Function {
 		return fn
 	}
 	return nil
+}
+
+// implementors: the module's non-generic named types T (or *T) whose method set implements iface, with
+// the function implementing method name. Sorted by type name.
+type implementor struct {
+	T  types.Type
+	Fn *ssa.Function
+}
+
+func (p *Program) implementors(iface *types.Interface, name string) []implementor {
+	var out []implementor
+	for _, sp := range p.prog.AllPackages() {
+		if sp.Pkg == nil || !strings.HasPrefix(sp.Pkg.Path(), p.ModPath) {
+			continue
+		}
+		for _, m := range sp.Members {
+			tm, ok := m.(*ssa.Type)
+			if !ok {
+				continue
+			}
+			n, ok := tm.Type().(*types.Named)
+			if !ok || n.TypeParams().Len() > 0 || types.IsInterface(n) {
+				continue
+			}
+			var t types.Type
+			switch {
+			case types.Implements(n, iface):
+				t = n
+			case types.Implements(types.NewPointer(n), iface):
+				t = types.NewPointer(n)
+			default:
+				continue
+			}
+			sel := p.prog.MethodSets.MethodSet(t).Lookup(n.Obj().Pkg(), name)
+			if sel == nil {
+				continue
+			}
+			fn := p.prog.MethodValue(sel)
+			if fn == nil {
+				continue
+			}
+			out = append(out, implementor{t, fn})
+		}
+	}
+	sort.Slice(out, func(i, j int) bool { return out[i].T.String() < out[j].T.String() })
+	return out
 }
